@@ -13,7 +13,7 @@ The command is `sh ./emit.sh` copying data files (mc/gentest_harness.py); a
 mutation edits one data file (never the generated script): one character of
 one line altered, a line added at any gap, a line removed, an output file no
 longer produced, one byte of a binary file flipped / appended / dropped, the
-exit status changed.  thorough adds every character position, a second
+exit status changed, a byte-order mark put in front of a text / taken away.  thorough adds every character position, a second
 replacement style and pairs of simultaneous mutations of two different
 outputs.
 """
@@ -25,7 +25,7 @@ from mc.models import gentest_spec as spec
 from mc.checks.c11 import (mk, tokens, kinds, placements, tf, specs_for,
                            two_file_sets, CWD, SUB, TMP, ALT, SIB, ELSE)
 
-TEXT_KINDS = ('text', 'csv', 'noext', 'json')
+TEXT_KINDS = ('text', 'csv', 'noext', 'json', 'utf8txt', 'bomtxt', 'bomascii')
 MARK = gh.TMP_MARK.encode()
 
 
@@ -63,6 +63,12 @@ def _alter(ch, style):
 def text_mutations(data, every, styles, raw_bytes=False):
     """yield (kind, line index or None, new data)."""
     lines, final = _split(data)
+    # a byte-order mark (the character U+FEFF) put in front of the text, or
+    # taken away when the text begins with one
+    if data.startswith(gh.BOM):
+        yield ('bom-remove@0', 0, data[len(gh.BOM):])
+    elif data:
+        yield ('bom-insert@0', 0, gh.BOM + data)
     # a non-ASCII character, a NUL, (files) a Latin-1 byte, a CR before the
     # line terminator
     for i, raw in enumerate(lines):
@@ -142,7 +148,10 @@ class C12(Check):
                  'enumerated')
     rule = ('cases = deterministic commands (stdout token x stderr token; '
             'two-line streams; 1-2 output files of every kind x place x '
-            'naming; option product) that generate successfully; per case '
+            'naming; option product; rarely used gentest() keywords; UTF-8 '
+            'files with / without a byte-order mark) that generate '
+            'successfully; two generations in one directory under script '
+            'names differing only in underscores / case; per case '
             'every single mutation of every emitted output is applied and '
             'reverted.  non-trivial = at least one mutation whose target is '
             'guarded by a test and is not in a gray zone was executed')
@@ -183,7 +192,18 @@ class C12(Check):
              ('chars', 'splitlines() boundary classes, NUL, astral next to '
                        'a plain line on stdout / stderr / in a text file'),
              ('runmodes', 'post-mutation run in a fresh process / the SAME '
-                          'loaded module and class run again')]
+                          'loaded module and class run again'),
+             ('encodings', 'UTF-8 text files recorded with an explicit '
+                           'encoding: non-ASCII content without / with a '
+                           'byte-order mark, ASCII with one x place x naming '
+                           'x iterations; byte-order mark put in front / '
+                           'taken away among the mutations'),
+             ('scripts2', 'two generations in ONE directory under script '
+                          'names that differ only in underscores / case '
+                          '(ordered pairs) x second command {same, different '
+                          'behaviour}: the first test keeps passing while '
+                          'its command is unchanged, reports the change '
+                          'otherwise')]
         if tier == 'thorough':
             L.append(('pairs', 'two simultaneous mutations on different '
                                'outputs'))
@@ -248,6 +268,15 @@ class C12(Check):
                                              no_stderr=no_stderr,
                                              nonzero=nonzero, status=status,
                                              script=sc)
+            # the rarely used keywords of gentest(), each at one value
+            for kw in gh.KW_POINTS:
+                for it in (1, 2):
+                    for f, sp in (({'kind': 'text', 'sub': 0}, 'explicit'),
+                                  ({'kind': 'bin', 'sub': 1}, 'dir')):
+                        c = mk(out=['plain'], err=['tmp', 'plain'],
+                               files=[f], spec=sp, iters=it, kw=kw)
+                        c['menu'] = 'chars'
+                        yield c
         elif layer == 'prehist':
             singles = []
             for place in (CWD, SUB, ALT, SIB, TMP, ELSE):
@@ -310,6 +339,35 @@ class C12(Check):
                        + shapes[4:5]):
                 c = dict(sh, mode='fresh', menu='tiny')
                 yield c
+        elif layer == 'encodings':
+            for k in ('utf8txt', 'bomtxt', 'bomascii'):
+                for sub in (0, 1):
+                    for sp in ('dir', 'explicit'):
+                        for it in (1, 2):
+                            yield mk(out=['plain'], err=['uni'],
+                                     files=[{'kind': k, 'sub': sub}],
+                                     spec=sp, iters=it)
+        elif layer == 'scripts2':
+            names = [(st, 'rel') for st in gh.STEMS]
+            pairs = [(a, b) for a in names for b in names if a != b]
+            # test<s>.py (no underscore) next to test_<s>.py
+            pairs += [(('x', 'nound'), ('x', 'rel')),
+                      (('x', 'rel'), ('x', 'nound')),
+                      (('x', 'nound'), ('_x', 'rel')),
+                      (('__x', 'rel'), ('x', 'nound'))]
+            for (s1, f1), (s2, f2) in pairs:
+                for second in ('same', 'different'):
+                    for files in (0, 1):
+                        for it in ((1, 2) if tier == 'thorough' else (2,)):
+                            kw = dict(out=['plain'], err=['quotes'], iters=it)
+                            if files:
+                                kw.update(files=[tf('o.txt', CWD,
+                                                    ['plain', 'regex'])],
+                                          spec='explicit')
+                            c = mk(stem=s1, script=f1, **kw)
+                            c['hist2'] = {'stem': s2, 'script': f2,
+                                          'second': second}
+                            yield c
         elif layer == 'pairs':
             for o in ('plain', 'today', 'regex'):
                 for k in ('text', 'bin'):
@@ -337,14 +395,14 @@ class C12(Check):
         every = self.tier == 'thorough'
         styles = (0, 1) if every else (0,)
         env = {'user': H.user, 'host': H.host, 'cwd': b.cwd, 'home': H.home,
-               'tmpdir': H.gtmp, 'ip': H.ip, 'now': gh.FAKE_NOW[:3]}
+               'tmpdir': b.tmpdir, 'ip': H.ip, 'now': gh.FAKE_NOW[:3]}
         case = b.case
         out = []
 
         def text_target(target, dname, toks):
             data = b.data[dname]
             lines, _ = _split(data)
-            shown = [l.replace(MARK, H.gtmp.encode()).decode('utf-8',
+            shown = [l.replace(MARK, b.tmpdir.encode()).decode('utf-8',
                                                              'replace')
                      for l in lines]
             for kind, li, new in text_mutations(data, every, styles,
@@ -391,7 +449,8 @@ class C12(Check):
                 cls_ = ('content' if k in ('alter', 'flip') else k
                         if k in ('not-produced', 'add', 'remove',
                                  'nonascii-insert', 'nul-insert',
-                                 'latin1-insert') else
+                                 'latin1-insert', 'bom-insert',
+                                 'bom-remove') else
                         'status' if k.startswith('status') else None)
                 if cls_ is None or m[2] or (m[0], cls_) in seen:
                     continue
@@ -399,7 +458,8 @@ class C12(Check):
                         'content', 'not-produced', 'status'):
                     continue
                 if case['menu'] == 'short' and cls_ in (
-                        'nonascii-insert', 'nul-insert', 'latin1-insert'):
+                        'nonascii-insert', 'nul-insert', 'latin1-insert',
+                        'bom-insert', 'bom-remove'):
                     continue
                 seen.add((m[0], cls_))
                 short.append(m)
@@ -415,8 +475,130 @@ class C12(Check):
             pass
         return R
 
+    # ------------------------------------------- two scripts, one directory
+    @staticmethod
+    def name_relation(c1, c2):
+        n1 = ('test' if c1['script'] == 'nound' else 'test_') + c1['stem']
+        n2 = ('test' if c2['script'] == 'nound' else 'test_') + c2['stem']
+        if n1.replace('_', '') == n2.replace('_', ''):
+            if 'nound' in (c1['script'], c2['script']) and \
+                    c1['stem'] == c2['stem']:
+                return 'testNAME-and-test_NAME'
+            return 'underscore-count'
+        if n1.lower() == n2.lower():
+            return 'case-only'
+        return 'different'
+
+    def _run_scripts2(self, case, R):
+        """generate A as script 1, run; generate B as script 2 in the same
+        directory, run; script 1 must still judge the command by what it did
+        when script 1 was generated."""
+        H = self.H
+        h = case['hist2']
+        c1 = dict((k, v) for k, v in case.items() if k != 'hist2')
+        c2 = dict(c1, stem=h['stem'], script=h['script'])
+        if h['second'] == 'different':
+            c2['out'] = ['regex', 'plain']
+            if c2['files']:
+                c2['files'] = [dict(f, lines=['quotes', 'plain'])
+                               for f in c2['files']]
+        rel = self.name_relation(c1, c2)
+
+        def gen(c, wipe):
+            b = H.build(c, wipe=wipe)
+            g = H.generate(b, settle=0.0 if wipe else 0.03)
+            R.ev()
+            if g.get('hang') or g['exc'] is not None or g['exit'] is not None \
+                    or not os.path.isfile(b.script):
+                R.out('not-generated:%s' % ('first' if wipe else 'second'))
+                raise _Abort()
+            try:
+                return b, H.compile_script(b)
+            except (SyntaxError, ValueError):
+                R.out('not-compilable')
+                raise _Abort()
+
+        def run(b, code):
+            r = H.run_script(b, code)
+            R.ev()
+            R.states += 1
+            if r['hang']:
+                R.out('generated-test-hangs')
+                raise _Abort()
+            bad = sorted(t for t, v in r['tests'].items() if v != 'ok')
+            if r['import_error'] or r['other']:
+                bad.append('<class>')
+            return bad
+
+        def behave_like(b):
+            for n, content in b.data.items():
+                H.write_data(b, n, content)
+
+        def changed_tests(b):
+            t = [] if b.case.get('no_stdout') else ['test_stdout']
+            return t + ['test_' + spec.sanitize(os.path.basename(rel_))
+                        for rel_, _, _ in b.files]
+
+        b1, code1 = gen(c1, True)
+        bad = run(b1, code1)
+        if bad:
+            R.out('unchanged-fails')
+            R.viol('unchanged-fails:first-script', 'keeps-passing-when-'
+                   'nothing-changed', {'case': case, 'failing': bad})
+            return R
+        b2, code2 = gen(c2, False)
+        if os.path.samefile(b1.script, b2.script):
+            R.out('same-script-file')       # overwritten, as documented
+            return R
+        bad = run(b2, code2)
+        if bad:
+            R.viol('unchanged-fails:second-script:%s' % rel,
+                   'keeps-passing-when-nothing-changed',
+                   {'case': case, 'failing': bad})
+        R.nontrivial = True
+        if h['second'] == 'same':
+            bad = run(b1, code1)
+            R.out('second-same:first-%s' % ('passes' if not bad else 'FAILS'))
+            if bad:
+                R.viol('other-script-generated:%s' % rel,
+                       'keeps-passing-when-nothing-changed',
+                       {'case': case, 'first': b1.modname,
+                        'second': b2.modname, 'failing': bad})
+            return R
+        # the command now behaves like B
+        bad = run(b1, code1)
+        want = changed_tests(b1)
+        R.out('second-different:first-%s' % (
+            'reports' if set(want) <= set(bad) else 'MISSES'))
+        if not set(want) <= set(bad):
+            R.viol('other-script-generated:%s' % rel,
+                   'change-is-reported-by-its-test',
+                   {'case': case, 'first': b1.modname, 'second': b2.modname,
+                    'failing': bad, 'expected_failing': want})
+        if set(bad) - set(want):
+            R.viol('other-script-generated:%s:collateral' % rel,
+                   'untouched-outputs-keep-passing',
+                   {'case': case, 'failing': bad, 'expected_failing': want})
+        # ... and like A again
+        behave_like(b1)
+        bad = run(b1, code1)
+        if bad:
+            R.viol('other-script-generated:%s' % rel,
+                   'keeps-passing-when-nothing-changed',
+                   {'case': case, 'first': b1.modname, 'second': b2.modname,
+                    'failing': bad})
+        bad = run(b2, code2)
+        want = changed_tests(b2)
+        if not set(want) <= set(bad):
+            R.viol('other-script-generated:%s' % rel,
+                   'change-is-reported-by-its-test',
+                   {'case': case, 'failing': bad, 'expected_failing': want})
+        return R
+
     def _run_case(self, case, R):
         H = self.H
+        if case.get('hist2'):
+            return self._run_scripts2(case, R)
         pairs = case.get('pairs')
         regen = case.get('regen')
         plain = dict((k, v) for k, v in case.items()
